@@ -26,6 +26,9 @@ CLAIMED = {
  "C11": dict(level="exploration", tech="property-based testing over hash orders: N fresh builds (new RandomState per HashMap), clones, permuted insertions, fresh threads, reused objects and tight iteration budgets; reference model only classifies the known root cause",
    text="Each generated (token, authorizer, probe queries) input with fallible expressions is evaluated on 48 (quick) / 512 (thorough) fresh builds plus clones, second calls and thread-spawned builds; the set of normalised outcomes and of query result sets must have one element; a second campaign uses an iteration budget equal to the model cost (+0/+1) so that order-dependent iteration counts flip the outcome.",
    note="hash seeds come from the OS: a reported difference is always real, a rare order dependence can be missed; the first-result-wins root cause is an open known finding, classified with RefAuthz", ref="4 C11"),
+ "C12": dict(level="exploration", tech="stateful (model-based) property-based testing of API histories over Biscuit and UnverifiedBiscuit, with a reload oracle after every step, an author-AST oracle and RefAuthz",
+   text="Generated histories of append / append_third_party / seal / reload / API switch are executed through the API the state is in; after every step the in-memory object and its reload must print the same block sources, expose the same symbols, keys and accessors, serialise to the same bytes and authorize identically under generated authorizers; every printed block must parse back to the AST its author supplied and the outcome must equal RefAuthz on the plan. Crafted (RefSigner) tokens whose first-party block redeclares a symbol or key of an earlier block or the default table must be refused.",
+   note="contents use grammar-normal expressions and plain strings so that printing is parseable; block-level scopes are compared through authorization only (open C14 finding)", ref="4 C12"),
  "C14": dict(level="exploration", tech="round-trip property-based testing (print -> parse -> compare ASTs) over grammar-derived items, blocks and authorizer dumps",
    text="Facts, rules, checks and policies derived from the grammar (all term types, nested collections, every operator and method, closures, explicit Parens exactly where the grammar needs them, scopes with both key algorithms, strings over all of Unicode biased to quote/backslash/newline/Datalog fragments) are printed with Display and parsed back with FromStr; tokens are printed with print_block_source and rebuilt with BlockBuilder::code; authorizers are dumped and rebuilt; any parse failure or structural difference is a violation. Strict And/Or (wire only) are probed separately.",
    note="the AST generator is the reference; four open findings (block / authorizer scope not printed, strict And/Or syntax) are tolerated by signature", ref="4 C14"),
